@@ -159,6 +159,7 @@ func c24Body(sc c24Scenario) vs.Body {
 		// ---- oracle ----
 		var stream []int
 		lastSeq := int64(-1 << 62)
+		prevSeq := int64(-1 << 62)
 		for bi, b := range batches {
 			stream = append(stream, b.objs...)
 			if b.seq <= lastSeq {
@@ -177,12 +178,24 @@ func c24Body(sc c24Scenario) vs.Body {
 			if len(order) > sc.batchSize {
 				vio("C24:batch-exceeds-size", "batch %d holds %d writes, batch size %d", bi, len(order), sc.batchSize)
 			}
+			// membership by sequence number (this also places writes that carry no objects):
+			// batch bi holds exactly the writes with prevSeq < seq <= b.seq
+			var members []*c24Write
+			for _, wr := range writes {
+				if wr.returned && wr.err == nil && wr.seq > prevSeq && wr.seq <= b.seq {
+					members = append(members, wr)
+				}
+			}
+			sort.Slice(members, func(i, j int) bool { return members[i].seq < members[j].seq })
+			if len(members) > sc.batchSize {
+				vio("C24:batch-exceeds-size", "batch %d (seq %d, previous %d) holds %d writes, batch size %d", bi, b.seq, prevSeq, len(members), sc.batchSize)
+			}
 			var exp []int
 			max := int64(-1 << 62)
-			for _, wi := range order {
-				exp = append(exp, writes[wi].objs...)
-				if writes[wi].seq > max {
-					max = writes[wi].seq
+			for _, wr := range members {
+				exp = append(exp, wr.objs...)
+				if wr.seq > max {
+					max = wr.seq
 				}
 			}
 			if fmt.Sprint(exp) != fmt.Sprint(b.objs) {
@@ -191,6 +204,7 @@ func c24Body(sc c24Scenario) vs.Body {
 			if b.seq != max {
 				vio("C24:batch-seq-not-max", "batch %d carries seq %d, largest contained write seq %d", bi, b.seq, max)
 			}
+			prevSeq = b.seq
 		}
 		// exactly once
 		cnt := map[int]int{}
@@ -261,6 +275,10 @@ func TestVerif_C24(t *testing.T) {
 		{"2w-flush-b3-timeout", [][]int{{2}, {1}}, 1, 3, 100 * time.Millisecond, true},
 		{"3w-b2-timeout", [][]int{{1}, {2}, {1}}, 0, 2, 50 * time.Millisecond, true},
 		{"1w-3-b1", [][]int{{1, 1, 1}}, 1, 1, 10 * time.Millisecond, true},
+		// writes that carry no objects and no completion channel (the queue accepts them): they must not
+		// disturb the batching of the writes around them
+		{"1w-empty,empty,1-b2-timeout", [][]int{{0, 0, 1}}, 0, 2, 100 * time.Millisecond, false},
+		{"2w-empty|1-b3-timeout", [][]int{{0}, {1}}, 0, 3, 100 * time.Millisecond, false},
 	}
 	opts := vs.Options{Deviations: r.Pick(2, 3), Preemptions: -1, SelectDevs: -1, TimeDevs: 1, MaxExecs: int64(r.Pick(400000, 4000000))}
 	if w, err := strconv.Atoi(os.Getenv("VSCHED_WORKERS")); err == nil {
